@@ -32,6 +32,9 @@
 #include "parsec/mempool.h"
 #include <stdarg.h>
 
+#ifndef PROP
+#define PROP "C01"             /* prefix of the obligation names (spec/C22 reuses this harness on apply.jdf) */
+#endif
 #ifndef BOX
 #define BOX 3                  /* each parameter takes BOX consecutive values at most                 */
 #endif
@@ -76,7 +79,7 @@ static parsec_task_t *h_pool_slot(int k)
 void *parsec_thread_mempool_allocate_when_empty(parsec_thread_mempool_t *tm)
 {
     (void)tm;
-    V_ASSERT(g_alloc < NPOOL, "C01.startup.post.no_more_tasks_than_points_of_the_box");
+    V_ASSERT(g_alloc < NPOOL, PROP ".startup.post.no_more_tasks_than_points_of_the_box");
     g_alloc++;
 #ifdef STATIC_POOL       /* chunked jobs: everything static, one object per task (separate objects, not an array) */
     return h_pool_slot(g_alloc - 1);
@@ -158,7 +161,9 @@ int __parsec_schedule_vp(parsec_execution_stream_t *e, parsec_task_t **rings, in
 #define L(t, i) ((t)->locals[i].value)
 #define OFF_A 0
 #define OFF_C 0
-#if CASE == 1      /* tri.jdf T(m, n): m = 0..NM, lo = m, n = lo..NN : descA(m,n); READ A <- (n%2==0) ? descA(m,n) : A U(m,n) */
+#ifdef CASE_HEADER /* execution-space specification supplied by another spec directory (same macros as the cases below) */
+#include CASE_HEADER
+#elif CASE == 1      /* tri.jdf T(m, n): m = 0..NM, lo = m, n = lo..NN : descA(m,n); READ A <- (n%2==0) ? descA(m,n) : A U(m,n) */
 #define NPAR 2
 #define IDX_A 0
 #define IDX_B 2
@@ -244,7 +249,11 @@ static int32_t stub_vpid_of(parsec_data_collection_t *d, ...)
 }
 
 static TP_T tp;
-static parsec_data_collection_t dc;
+#ifndef DC_T              /* type of the collection object (a case header may need a parsec_tiled_matrix_t) */
+#define DC_T parsec_data_collection_t
+#define DC_BASE(d) (d)
+#endif
+static DC_T dc;
 static parsec_execution_stream_t es[NVP];
 static parsec_thread_mempool_t h_tmpool[NVP];
 static const parsec_task_class_t *h_classes[4];
@@ -263,9 +272,13 @@ static void setup(void)
     h_tmpool[0].mempool.lifo_head.data.item = NULL;
     ctx->virtual_processes[0] = &h_vp;
     /* domain: the box.  Upper bounds from -1 (empty range) to BOX-1 */
+#ifdef SPEC_DOMAIN
+    V_ASSUME(SPEC_DOMAIN(vin.g));
+#else
     V_ASSUME(vin.g[0] >= -1 && vin.g[0] < BOX);
     V_ASSUME(vin.g[1] >= -1 && vin.g[1] <= GMAX1);
     V_ASSUME(vin.g[2] >= -1 && vin.g[2] < BOX);
+#endif
 #ifdef FIX_G0          /* globals fixed per cbmc process (enumerated by spec.py) */
     vin.g[0] = FIX_G0; vin.g[1] = FIX_G1; vin.g[2] = FIX_G2;
 #endif
@@ -289,9 +302,9 @@ static void setup(void)
 #endif
     parsec_task_startup_iter = vin.startup_iter;
     parsec_task_startup_chunk = vin.startup_chunk;
-    dc.myrank = vin.myrank;
-    dc.rank_of = stub_rank_of;
-    dc.vpid_of = vin.has_vpid_of ? stub_vpid_of : NULL;
+    DC_BASE(dc).myrank = vin.myrank;
+    DC_BASE(dc).rank_of = stub_rank_of;
+    DC_BASE(dc).vpid_of = vin.has_vpid_of ? stub_vpid_of : NULL;
     tp.super.super.context = ctx;
     tp.super.super.priority = vin.tp_priority;
     tp.super.super.task_classes_array = h_classes;
@@ -316,13 +329,13 @@ void h_init(void)
     for (int a = 0; a < BOX; a++) for (int b = 0; b < BOX; b++) for (int c = 0; c < (NPAR == 3 ? BOX : 1); c++)
         if (spec_local(a, b, c)) expect++;
     V_ASSERT(tp.initial_number_tasks == vin.init0 + expect,
-             "C01.internal_init.post.initial_number_tasks_grows_by_number_of_local_points_of_declared_space");
-    V_ASSERT(!g_rank_outside, "C01.internal_init.post.no_point_outside_the_declared_space_considered");
+             PROP ".internal_init.post.initial_number_tasks_grows_by_number_of_local_points_of_declared_space");
+    V_ASSERT(!g_rank_outside, PROP ".internal_init.post.no_point_outside_the_declared_space_considered");
     for (int x = 0; x < BOX; x++) for (int y = 0; y < BOX; y++) {
         int n = 0;
         for (int a = 0; a < BOX; a++) for (int b = 0; b < BOX; b++) for (int c = 0; c < (NPAR == 3 ? BOX : 1); c++)
             if (spec_in_space(a, b, c) && AFF_X(a, b, c) == x && AFF_Y(a, b, c) == y) n++;
-        V_ASSERT(g_rank_calls[x][y] == n, "C01.internal_init.post.each_point_of_the_space_considered_exactly_once");
+        V_ASSERT(g_rank_calls[x][y] == n, PROP ".internal_init.post.each_point_of_the_space_considered_exactly_once");
     }
     V_CANARY("init");
 }
@@ -339,31 +352,31 @@ void h_startup(void)
         int before = g_scheduled;
         rc = STARTUP_FN(&es[0], &gen_task);
         g_calls++;
-        V_ASSERT(rc == PARSEC_HOOK_RETURN_AGAIN || rc == PARSEC_HOOK_RETURN_DONE, "C01.startup.post.answers_AGAIN_or_DONE");
-        V_ASSERT(g_alloc == g_scheduled, "C01.startup.post.every_created_task_handed_to_scheduler_before_yielding");
+        V_ASSERT(rc == PARSEC_HOOK_RETURN_AGAIN || rc == PARSEC_HOOK_RETURN_DONE, PROP ".startup.post.answers_AGAIN_or_DONE");
+        V_ASSERT(g_alloc == g_scheduled, PROP ".startup.post.every_created_task_handed_to_scheduler_before_yielding");
         V_ASSERT(V_IMPLIES(rc == PARSEC_HOOK_RETURN_AGAIN, (uint64_t)(g_scheduled - before) > vin.startup_chunk),
-                 "C01.startup.post.yields_only_after_more_than_chunk_new_tasks");
+                 PROP ".startup.post.yields_only_after_more_than_chunk_new_tasks");
     }
 #ifdef ONE_CALL
     V_ASSUME(rc == PARSEC_HOOK_RETURN_DONE);      /* bounded stand-in: generations that finish within RMAX calls */
 #else
-    V_ASSERT(rc == PARSEC_HOOK_RETURN_DONE, "C01.startup.post.completes_within_RMAX_calls");
+    V_ASSERT(rc == PARSEC_HOOK_RETURN_DONE, PROP ".startup.post.completes_within_RMAX_calls");
 #endif
-    V_ASSERT(!g_bad_point, "C01.startup.post.no_instance_outside_the_box");
-    V_ASSERT(!g_bad_task, "C01.startup.post.task_has_class_taskpool_priority_derived_locals_marked_startup_once");
-    V_ASSERT(!g_bad_distance, "C01.startup.post.scheduled_at_distance_0");
+    V_ASSERT(!g_bad_point, PROP ".startup.post.no_instance_outside_the_box");
+    V_ASSERT(!g_bad_task, PROP ".startup.post.task_has_class_taskpool_priority_derived_locals_marked_startup_once");
+    V_ASSERT(!g_bad_distance, PROP ".startup.post.scheduled_at_distance_0");
     int n_startup = 0, n_local = 0;
     for (int a = 0; a < BOX; a++) for (int b = 0; b < BOX; b++) for (int c = 0; c < (NPAR == 3 ? BOX : 1); c++) {
         if (spec_local(a, b, c)) n_local++;
         if (spec_is_startup(a, b, c)) {
             n_startup++;
-            V_ASSERT(g_visit[a][b][c] == 1, "C01.startup.post.every_local_instance_without_input_dependency_created_exactly_once");
+            V_ASSERT(g_visit[a][b][c] == 1, PROP ".startup.post.every_local_instance_without_input_dependency_created_exactly_once");
         } else
-            V_ASSERT(g_visit[a][b][c] == 0, "C01.startup.post.no_other_instance_created");
+            V_ASSERT(g_visit[a][b][c] == 0, PROP ".startup.post.no_other_instance_created");
     }
-    V_ASSERT(g_scheduled == n_startup && n_startup <= n_local, "C01.startup.post.created_tasks_are_among_the_counted_ones");
+    V_ASSERT(g_scheduled == n_startup && n_startup <= n_local, PROP ".startup.post.created_tasks_are_among_the_counted_ones");
 #ifdef MIN_CALLS          /* chunked jobs, non-vacuity: this configuration does make the generator yield and be re-entered */
-    V_ASSERT(g_calls >= MIN_CALLS, "C01.startup_chunked.lemma.configuration_reenters_the_generator");
+    V_ASSERT(g_calls >= MIN_CALLS, PROP ".startup_chunked.lemma.configuration_reenters_the_generator");
 #endif
     V_CANARY("startup");
 }
